@@ -138,7 +138,7 @@ Definition case_ok (c : case) : bool :=
       | Some t => lres_eqb (m_load_dir o t) dirloaded
       | None => true
       end
-  | CFiles o files loaded => lres_eqb (m_load_files o false files) loaded
+  | CFiles o files loaded => lres_eqb (m_load_files o files) loaded
   | CDir o ignerr pkgver tree loaded packaged =>
       let res := if ignerr then inl LIgnore else m_load_dir o tree in
       lres_eqb res loaded &&
